@@ -107,6 +107,11 @@ func (x *Exec) nativeMethod(e *Env, callee *types.Func, recv ast.Expr, n *ast.Ca
 		}
 		return x.bigMethod(e, callee, recv, n)
 	}
+	if pp == "encoding/binary" && (strings.HasPrefix(key, "littleEndian.") || strings.HasPrefix(key, "bigEndian.")) {
+		if v, ok := x.binaryMethod(e, key, n); ok {
+			return v, true
+		}
+	}
 	if pp == "hash" || pp == "io" || strings.HasPrefix(key, "Hash.") || strings.HasPrefix(key, "Writer.") || strings.HasPrefix(key, "SpongeFunction.") {
 		if rv, ok := x.peekValue(e, recv); ok {
 			if h, isHash := rv.(HashV); isHash {
@@ -452,6 +457,15 @@ func (x *Exec) errorsAs(e *Env, n *ast.CallExpr) Value {
 	o := e.info().Uses[id0]
 	cur := e.st.vars[o]
 	e.st.vars[o] = mergeValLoose(match, ev, cur)
+	if x.errAlias == nil {
+		x.errAlias = map[types.Object]types.Object{}
+	}
+	delete(x.errAlias, o)
+	if sid, ok := n.Args[0].(*ast.Ident); ok {
+		if so := e.info().Uses[sid]; so != nil {
+			x.errAlias[o] = so
+		}
+	}
 	return Scalar{match, boolT}
 }
 
@@ -820,4 +834,87 @@ func (x *Exec) peekValue(e *Env, recv ast.Expr) (Value, bool) {
 	}
 	v, ok := e.lookupVar(o)
 	return v, ok
+}
+
+// ---------------------------------------------------------------- encoding/binary
+
+// binaryMethod: binary.{LittleEndian,BigEndian}.{Uint16,Uint32,Uint64,PutUint16,PutUint32,PutUint64}
+// by their definition; both panic when the slice is too short.
+func (x *Exec) binaryMethod(e *Env, key string, n *ast.CallExpr) (Value, bool) {
+	little := strings.HasPrefix(key, "littleEndian.")
+	name := key[strings.Index(key, ".")+1:]
+	put := strings.HasPrefix(name, "Put")
+	var nb int64
+	var typ types.Type
+	switch strings.TrimPrefix(name, "Put") {
+	case "Uint16":
+		nb, typ = 2, types.Typ[types.Uint16]
+	case "Uint32":
+		nb, typ = 4, types.Typ[types.Uint32]
+	case "Uint64":
+		nb, typ = 8, types.Typ[types.Uint64]
+	default:
+		return nil, false
+	}
+	x.trusted["encoding/binary fixed-width integer codecs by their definition"] = true
+	sv, ok := e.expr(n.Args[0]).(SliceV)
+	if !ok {
+		unsupported("%s: binary.%s on %T", e.where, name, e.expr(n.Args[0]))
+	}
+	x.safety(e, "index", n, Le(IntC(nb), sv.Len))
+	arr := x.memArr(e.st, sv.Alloc, sv.path)
+	pos := func(i int64) *Term { // index of the byte of weight 256^i
+		if little {
+			return Add(sv.Off, IntC(i))
+		}
+		return Add(sv.Off, IntC(nb-1-i))
+	}
+	if put {
+		v := e.assignable(e.expr(n.Args[1]), typ).(Scalar)
+		t := arr.T
+		for i := int64(0); i < nb; i++ {
+			var b *Term
+			if v.T.S.K == KBV {
+				b = Extract(int(8*i+7), int(8*i), v.T)
+				if arr.T.S.Elem.K != KBV {
+					b = BV2Nat(b)
+				}
+			} else {
+				b = EMod(EDiv(v.T, IntB(pow2(int(8*i)))), IntC(256))
+				if arr.T.S.Elem.K == KBV {
+					b = Int2BV(8, b)
+				}
+			}
+			t = Store(t, pos(i), b)
+		}
+		x.setMem(e.st, sv.Alloc, sv.path, ArrayV{T: t, N: arr.N, Elem: arr.Elem, Typ: arr.Typ})
+		return TupleV{}, true
+	}
+	rs := e.R().sortOf(typ)
+	if rs.K == KBV {
+		var t *Term
+		for i := nb - 1; i >= 0; i-- {
+			b := Select(arr.T, pos(i))
+			if b.S.K != KBV {
+				b = Int2BV(8, b)
+			}
+			if t == nil {
+				t = b
+			} else {
+				t = Concat(t, b)
+			}
+		}
+		return Scalar{t, typ}, true
+	}
+	t := IntC(0)
+	for i := nb - 1; i >= 0; i-- {
+		b := Select(arr.T, pos(i))
+		if b.S.K == KBV {
+			b = BV2Nat(b)
+		} else {
+			e.st.assume(e.R().rangeOf(b, byteT)) // instance of the element-range invariant of byte arrays
+		}
+		t = Add(Mul(t, IntC(256)), b)
+	}
+	return Scalar{t, typ}, true
 }
